@@ -116,6 +116,11 @@ def _handle_union_types(
     memo: TypeCheckMemo,
 ) -> bool | None:
     """Handle compatibility logic for Union types with directional consideration."""
+    if get_origin(incoming_type) is Annotated:
+        incoming_primary = get_args(incoming_type)[0]
+        if isinstance(incoming_primary, UnionType) or get_origin(incoming_primary) is Union:
+            # `Annotated[X | Y, ...]` produces the values of `X | Y`: all members need to be accepted
+            incoming_type = incoming_primary
     if (isinstance(incoming_type, UnionType) or get_origin(incoming_type) is Union) and (
         isinstance(required_type, UnionType) or get_origin(required_type) is Union
     ):
